@@ -22,7 +22,7 @@ TUseSeqs == UseSeqsUpTo(3)
 Q2UseSeqs == [1..3 -> {<<"ty", "a">>, <<"ty", "b">>, <<"mod", "a">>}]
 NoPerts == {"none"}
 AllDefSets == SUBSET {"m", "a", "b", "n"}
-QPerts == {"none", "addtype", "addvft", "othername", "addmod", "addfirst"}
+QPerts == {"none", "addtype", "addvft", "othername", "addmod", "addfirst", "shadowown", "enclosing"}
 
 (* where the name may be defined, and the size it has there *)
 Places == <<"m", "a", "b", "n">>
@@ -47,11 +47,19 @@ MkInput(ptr, name, defs, uses, pert) ==
       extraB == CASE pert = "addtype" -> <<Unrelated>>
                   [] pert = "addvft" -> <<UnrelatedV>>
                   [] OTHER -> <<>>
-      mm == [Module(<<"m">>, [i \in DOMAIN uses |-> UsePath(name, uses[i])], own("m") \o <<R>>)
+      (* m also has a type of its own (`Own`) that R embeds; the nested module a::n refers to `W`, *)
+      (* which it sees through the module import `use b`                                        *)
+      Own == TypeDef("Own", "pub", <<Field("v", "pub", <<>>, TArr(TNm("u8"), 3), None, FALSE)>>)
+      R2 == [R EXCEPT !.fields = Append(@, Field("o", "pub", <<>>, TNm("Own"), None, FALSE)), !.packed = TRUE]
+      W(sz) == TypeDef("W", "pub", <<Field("v", "pub", <<>>, TArr(TNm("u8"), sz), None, FALSE)>>)
+      RN == TypeDef("RN", "pub", <<Field("w", "pub", <<>>, TNm("W"), None, FALSE)>>)
+      mm == [Module(<<"m">>, [i \in DOMAIN uses |-> UsePath(name, uses[i])], own("m") \o <<Own, R2>>)
                EXCEPT !.impls = <<Impl("R", <<g>>)>>]
-      ma == Module(<<"a">>, <<>>, own("a") \o (IF pert = "othername" THEN <<DefOf("Other", "b")>> ELSE <<>>))
-      mb == Module(<<"b">>, <<>>, own("b") \o extraB)
-      mn == Module(<<"a", "n">>, <<>>, own("n"))
+      ma == Module(<<"a">>, <<>>, own("a") \o (IF pert = "othername" THEN <<DefOf("Other", "b")>> ELSE <<>>)
+                                  \o (IF pert = "shadowown" THEN <<[Own EXCEPT !.fields[1].ty = TArr(TNm("u8"), 8)]>> ELSE <<>>)
+                                  \o (IF pert = "enclosing" THEN <<W(2)>> ELSE <<>>))
+      mb == Module(<<"b">>, <<>>, own("b") \o <<W(4)>> \o extraB)
+      mn == Module(<<"a", "n">>, <<<<"b">>>>, own("n") \o <<RN>>)
       mz == Module(<<"zz">>, <<<<"a">>>>, <<DefOf(name, "b"), Unrelated>>)
       base == <<mm, ma, mb, mn>>
   IN [ptr |-> ptr, gen |-> [ptr |-> ptr, name |-> name, defs |-> defs, uses |-> uses],
@@ -90,15 +98,22 @@ Inv_C11 ==
              wsize == IF Len(Bound) = 1 THEN BuiltinSizeOf(Bound[1]) ELSE SizeOfPath(Bound)
              g == r.methods[CHOOSE j \in DOMAIN r.methods : r.methods[j].name = "g"]
          IN /\ r.fields[1].ty = want
-            /\ reg[<<"m", "R">>].res.size = wsize
+            /\ reg[<<"m", "R">>].res.size = wsize + 3
             /\ g.args[2].ty = RCPtr(want) /\ g.ret = RMPtr(want)
 
 MFile(files) == CHOOSE f \in files : f.path = <<"m">>
+NFile(files) == CHOOSE f \in files : f.path = <<"a", "n">>
+
+(* the perturbations leave everything m reaches untouched; those that do not add to module b *)
+(* (which a::n imports) leave a::n's reach untouched as well                                  *)
+NUntouched == \A mi \in DOMAIN input.mods : input.mods[mi].path = <<"b">> =>
+                 \A i \in DOMAIN input.mods[mi].defs : input.mods[mi].defs[i].name # "Zed"
 
 Inv_C19 ==
   Accepted =>
     LET b == DetRunOn(BaseOf(input))
-    IN b.ok => MFile(out) = MFile(b.out)
+    IN b.ok => /\ MFile(out) = MFile(b.out)
+               /\ NUntouched => NFile(out) = NFile(b.out)
 
 PViol == (IF Inv_C11 THEN {} ELSE {"C11"}) \cup (IF Inv_C19 THEN {} ELSE {"C19"})
 
@@ -110,10 +125,10 @@ ReplayRecord ==
   [group |-> "scope", input |-> input, order |-> added, sched |-> hist,
    accepted |-> Accepted, err |-> err, pviol |-> IF Terminal THEN PViol ELSE {},
    oracle |-> [bound |-> Bound,
-               size |-> IF Bound = <<>> THEN None ELSE IF Len(Bound) = 1 THEN BuiltinSizeOf(Bound[1]) ELSE SizeOfPath(Bound),
+               size |-> IF Bound = <<>> THEN None ELSE 3 + (IF Len(Bound) = 1 THEN BuiltinSizeOf(Bound[1]) ELSE SizeOfPath(Bound)),
                kf |-> <<>>],
    mirror |-> [reg |-> RegView, out |-> out]]
 
 Replay == Terminal => PrintT(<<"REPLAY", ToJson(ReplayRecord)>>)
-View == <<input, phase, added, mods, reg, start, todo, err, out>>
+View == StdView
 =============================================================================
